@@ -352,6 +352,58 @@ func (e *Engine) applyContract(st *State, fr *Frame, fn *ssa.Function, c *Contra
 	}
 	// case split requested by the contract (conditional pointer results)
 	states := []*State{st}
+	// `split dyn p T`: case analysis on the dynamic type of a symbolic interface argument
+	for _, sp := range c.Splits {
+		if !strings.HasPrefix(sp.Text, "dyn ") {
+			continue
+		}
+		f := strings.Fields(strings.TrimPrefix(sp.Text, "dyn "))
+		pi := -1
+		for i, p := range fn.Params {
+			if p.Name() == f[0] {
+				pi = i
+			}
+		}
+		if pi < 0 || pi >= len(args) {
+			continue
+		}
+		iv, ok := args[pi].(*IfaceVal)
+		if !ok || iv.dyn != nil || iv.tagT == nil {
+			continue
+		}
+		obj := fn.Pkg.Pkg.Scope().Lookup(f[1])
+		if obj == nil {
+			continue
+		}
+		var t types.Type = types.NewPointer(obj.Type())
+		if len(f) == 3 && f[2] == "value" {
+			t = obj.Type()
+		}
+		if excludedDyn(iv, t) {
+			continue
+		}
+		if _, isPtr := t.(*types.Pointer); isPtr {
+			e.fail("call of %s: the dynamic type of argument %s must be known here (split dyn over pointer types is not propagated to callers)", rel, f[0])
+		}
+		is := mkEq(iv.tagT, dynTypeTerm(t))
+		var next []*State
+		for _, s := range states {
+			cases := [][]*Term{{iv.null}, {mkNot(iv.null), is}, {mkNot(iv.null), mkNot(is)}}
+			for ci, cs := range cases {
+				s2 := s
+				if ci < len(cases)-1 {
+					s2 = s.fork()
+				}
+				for _, cnd := range cs {
+					s2.assumeCase(cnd)
+				}
+				if !s2.infeasible() && !e.unsatisfiable(s2.hyps) {
+					next = append(next, s2)
+				}
+			}
+		}
+		states = next
+	}
 	var postSplits []ast.Expr // case splits over the results (nondeterministic outcomes such as a failing reader)
 	for _, sp := range c.Splits {
 		if !strings.HasPrefix(sp.Text, "case ") {
@@ -441,6 +493,12 @@ func (e *Engine) applyPost(st, pre *State, fr *Frame, fn *ssa.Function, c *Contr
 	var havoced []cellRef
 	for _, m := range c.Modifies {
 		for _, x := range m.Exprs {
+			if id, isGhost := env.ghostStateItem(x); isGhost {
+				if id != "" {
+					st.setObjState(id, mkIntVarR(tag+".state$"+id, nil, nil))
+				}
+				continue
+			}
 			cells, dyn := env.lvalueCells(x)
 			for _, cr := range cells {
 				e.havocCell(st, cr, tag)
@@ -842,6 +900,13 @@ func (e *Engine) assumeEnsures(st *State, env *SpecEnv, x ast.Expr, results []Va
 						return
 					}
 				}
+				// `big-endian value of a buffer written by the callee == t`: where that value occurs as a whole
+				// (e.g. as the argument of a byte-string abstraction) it is t
+				if lt.Sort == SInt && lt.Op == "poly" && freshBytesPoly(lt) && !occurs(lt, rt) {
+					st.assume(mkEq(lt, rt))
+					st.addSubst(lt, rt)
+					return
+				}
 				st.assume(mkEq(lt, rt))
 				return
 			}
@@ -882,6 +947,28 @@ func (e *Engine) assumeEnsures(st *State, env *SpecEnv, x ast.Expr, results []Va
 				// represented by one outcome: the contract must split on it (`split case ...`)
 				if mentionsPtrResultNil(n.Args[1], results, names) {
 					e.fail("ensures %s: the condition is undecided at this call site and the consequence decides whether a pointer result is nil; add `split case` to the contract", exprString(n))
+				}
+			case "isdyn":
+				// isdyn(resultK, T): the interface result holds a fresh object of dynamic type *T
+				if rid, ok := n.Args[0].(*ast.Ident); ok {
+					if ri := resultIndex(rid.Name, names); ri >= 0 && ri < len(results) {
+						if iv, ok := results[ri].(*IfaceVal); ok && iv.dyn == nil {
+							tn := exprString(n.Args[1])
+							obj := env.pkg.Scope().Lookup(tn)
+							if obj == nil {
+								e.fail("isdyn: unknown type %s", tn)
+							}
+							pt := types.NewPointer(obj.Type())
+							e.varN++
+							pv := e.symbolicResult(st, pt, fmt.Sprintf("%s.(*%s)!%d", rid.Name, tn, e.varN), true)
+							results[ri] = &IfaceVal{null: tFalse, dyn: pt, val: pv}
+							env.results = results
+							for _, inv := range e.invariantsOfValue(st, pv, pt, rid.Name) {
+								st.assume(inv.t)
+							}
+							return
+						}
+					}
 				}
 			case "rewrite":
 				// rewrite(a, t): the equation a == t, used from here on as the rewrite rule a -> t
